@@ -18,7 +18,7 @@ use std::task::Waker;
 use std::time::{Duration, Instant};
 
 use nexosim::model::{BuildContext, Context, InitializedModel, Model, ProtoModel};
-use nexosim::ports::{EventBuffer, Output, Requestor};
+use nexosim::ports::{EventBuffer, EventSource, Output, QuerySource, Requestor};
 use nexosim::simulation::{Address, ExecutionError, Mailbox, SimInit, Simulation};
 use nexosim::time::MonotonicTime;
 use nexosim::verif::{self, Hooks};
@@ -69,6 +69,9 @@ pub struct BenchDef {
     initprog: HashMap<String, i64>,
     sinks: Vec<String>,
     procs: Vec<Proc>,
+    /// event / query sources of the driver ("S1", "S2", ... in this order)
+    #[serde(default)]
+    sources: Vec<PortDef>,
 }
 
 #[derive(Deserialize)]
@@ -418,6 +421,8 @@ struct Built {
     sinks: Vec<(String, EventBuffer<Payload>)>,
     _orphan: Mailbox<BModel>,
     chans: HashMap<usize, String>,
+    esrc: HashMap<String, EventSource<Payload>>,
+    qsrc: HashMap<String, QuerySource<Payload, i64>>,
 }
 
 fn build(b: &BenchDef, sh: &Arc<Shared>, threads: usize) -> Built {
@@ -552,7 +557,73 @@ fn build(b: &BenchDef, sh: &Arc<Shared>, threads: usize) -> Built {
         let mb = mailboxes.remove(&n).unwrap();
         init = init.add_model(proto, mb, n);
     }
-    Built { init, addrs, sinks, _orphan: orphan, chans }
+    // event / query sources of the driver
+    let mut esrc: HashMap<String, EventSource<Payload>> = HashMap::new();
+    let mut qsrc: HashMap<String, QuerySource<Payload, i64>> = HashMap::new();
+    for (k, pd) in b.sources.iter().enumerate() {
+        let name = format!("S{}", k + 1);
+        if pd.kind == "out" {
+            let mut o: EventSource<Payload> = EventSource::new();
+            for (i, c) in pd.conns.iter().enumerate() {
+                let ci = (i + 1) as u32;
+                let delta = c.delta;
+                let accept = c.accept.clone();
+                let addr = addrs[&c.tgt].clone();
+                match c.mode.as_str() {
+                    "plain" => o.connect(BModel::handle, addr),
+                    "map" => o.map_connect(
+                        move |p: &Payload| Payload { prog: p.prog + delta, c: ci, ..p.clone() },
+                        BModel::handle,
+                        addr,
+                    ),
+                    _ => o.filter_map_connect(
+                        move |p: &Payload| {
+                            if accept.is_empty() || accept.contains(&p.prog) {
+                                Some(Payload { prog: p.prog + delta, c: ci, ..p.clone() })
+                            } else {
+                                None
+                            }
+                        },
+                        BModel::handle,
+                        addr,
+                    ),
+                }
+            }
+            esrc.insert(name, o);
+        } else {
+            let mut r: QuerySource<Payload, i64> = QuerySource::new();
+            for (i, c) in pd.conns.iter().enumerate() {
+                let ci = (i + 1) as u32;
+                let delta = c.delta;
+                let accept = c.accept.clone();
+                let addr = addrs[&c.tgt].clone();
+                let radd = 100000 * ci as i64;
+                match c.mode.as_str() {
+                    "plain" => r.connect(BModel::reply, addr),
+                    "map" => r.map_connect(
+                        move |p: &Payload| Payload { prog: p.prog + delta, c: ci, ..p.clone() },
+                        move |x: i64| x + radd,
+                        BModel::reply,
+                        addr,
+                    ),
+                    _ => r.filter_map_connect(
+                        move |p: &Payload| {
+                            if accept.is_empty() || accept.contains(&p.prog) {
+                                Some(Payload { prog: p.prog + delta, c: ci, ..p.clone() })
+                            } else {
+                                None
+                            }
+                        },
+                        move |x: i64| x + radd,
+                        BModel::reply,
+                        addr,
+                    ),
+                }
+            }
+            qsrc.insert(name, r);
+        }
+    }
+    Built { init, addrs, sinks, _orphan: orphan, chans, esrc, qsrc }
 }
 
 /// Names of the model tasks in the order in which add_model spawns them (post-order).
@@ -641,7 +712,7 @@ fn one_run(inp: &Input, id: u64, prefix: &[usize], seed: u64, out: &mut dyn Writ
     writeln!(out, "{}", json!({"ev": "reset", "run": id, "threads": inp.threads, "exact": controlled,
                                "yields": inp.yields, "prefix": prefix})).unwrap();
     HEARTBEAT.store(start.elapsed().as_millis() as u64 + 1, Ordering::SeqCst);
-    let Built { init, addrs, mut sinks, _orphan, chans: _ } = built;
+    let Built { init, addrs, mut sinks, _orphan, chans: _, mut esrc, mut qsrc } = built;
     let mut acc: HashMap<String, Vec<i64>> = HashMap::new();
     ev(&sh, json!({"ev": "cmd", "c": "init"}));
     let r = panic::catch_unwind(AssertUnwindSafe(move || init.init(MonotonicTime::EPOCH)));
@@ -664,12 +735,24 @@ fn one_run(inp: &Input, id: u64, prefix: &[usize], seed: u64, out: &mut dyn Writ
             n += 1;
             ev(&sh, json!({"ev": "cmd", "c": "process", "kind": p.kind, "target": p.target, "prog": p.prog}));
             let payload = Payload { prog: p.prog, s: "drv".into(), n, c: 0 };
-            let addr = addrs[&p.target].clone();
             let mut reply = 0i64;
+            let mut replies: Vec<i64> = Vec::new();
             let r = panic::catch_unwind(AssertUnwindSafe(|| {
-                if p.kind == "event" {
+                if p.kind == "srcevent" {
+                    let action = esrc.get_mut(&p.target).expect("event source").event(payload);
+                    exec_result(simu.process(action))
+                } else if p.kind == "srcquery" {
+                    let (action, mut rx) = qsrc.get_mut(&p.target).expect("query source").query(payload);
+                    let r = exec_result(simu.process(action));
+                    if let Some(it) = rx.take() {
+                        replies = it.collect();
+                    }
+                    r
+                } else if p.kind == "event" {
+                    let addr = addrs[&p.target].clone();
                     exec_result(simu.process_event(BModel::handle, payload, &addr))
                 } else {
+                    let addr = addrs[&p.target].clone();
                     match simu.process_query(BModel::reply, payload, &addr) {
                         Ok(v) => {
                             reply = v;
@@ -687,7 +770,7 @@ fn one_run(inp: &Input, id: u64, prefix: &[usize], seed: u64, out: &mut dyn Writ
                 std::thread::sleep(Duration::from_millis(30));
             }
             let sk = read_sinks(&mut sinks, &mut acc);
-            ev(&sh, json!({"ev": "ret", "res": resv, "sinks": sk, "reply": reply}));
+            ev(&sh, json!({"ev": "ret", "res": resv, "sinks": sk, "reply": reply, "replies": replies}));
             flush(&sh, out);
         }
     }
